@@ -24,7 +24,7 @@ CHECKS = {
     "C12": dict(
         text="TLC model-checks SpecProperty.tla (all 16 option combinations x {plain, spec-class unmanaged, spec-class managed+preparer, spec-class managed List[int] with element preparer} hosts, values incl. None; SpecPropertyFrozen.tla: the same machine on frozen hosts; single dict slot vs "
              "declarative ghost (override, cache-since-last-deletion); invariant Slot, action properties Priority/Assign/Delete/Typed) and ClassProperty.tla (32 "
-             "configurations over Base<-Mid<-Leaf; Isolation/NoCache/Read). All access paths of length 4 (thorough 5; classproperty 3/4) over the model's action "
+             "configurations over Base<-Mid<-Leaf; Isolation/NoCache/Read). All access paths of length 4 (classproperty 3; thorough: all of that length and every 8th path one step longer) over the model's action "
              "alphabet plus random longer paths are replayed through the real descriptors; TLC re-runs the model along each observed path and judges every access. "
              "The protocol state graphs are tiny, so all-paths replay decides the history dependence completely up to the path bound.",
         note=TB, technique="TLA+ spec + TLC model checking; exhaustive path replay through the real descriptor; TLC trace validation", ref="3 C12"),
